@@ -5,6 +5,7 @@ mod c06;
 mod c07;
 mod c08;
 mod c17;
+mod c22;
 mod coq;
 mod engine;
 mod irprint;
@@ -63,6 +64,8 @@ fn main() {
             // Exec model vs interpret_ir (tie) and Sem specification vs interpret_ir (oracle)
             let mut o = out::Out::new(&args.out, "From TF Require Import Run.", 40);
             c01::run(args.seed, args.n, &mut o, true, 3, false);
+            // a slice of the fold-count template family (C22): early termination is part of "the rows"
+            c22::run(args.seed ^ 0x22, (args.n / 8).max(10), &mut o);
             o.finish();
         }
         "c06" => {
@@ -74,6 +77,11 @@ fn main() {
             // panic-freedom: Exec model's ROWS/PANIC prediction vs catch_unwind(interpret_ir)
             let mut o = out::Out::new(&args.out, "From TF Require Import Run.", 60);
             c01::run(args.seed, args.n, &mut o, false, 15, true);
+            o.finish();
+        }
+        "c22" => {
+            let mut o = out::Out::new(&args.out, "From TF Require Import Run.", 60);
+            c22::run(args.seed, args.n, &mut o);
             o.finish();
         }
         "c08" => {
